@@ -616,8 +616,8 @@ def run(r, scale=1):
     timing = r.extra.setdefault("timing_s", {})
     timing["proofs_done_at"] = round(time.time() - r.t0, 1)
     t_phase = time.time()
-    r.rule = ("rasters 1x1..12x12 with unique target values (12% repeated), densities 0..60%, default and explicit "
-              "target_values (incl. absent values / NaN), NaN/inf cells, 6 dtypes, coordinate unit in {1,1/2,2,1/4}, steps "
+    r.rule = ("rasters 1x1..12x12 with unique target values (12% repeated; 23% with ids 2^24..2^53 one apart or subnormal/huge float64 cells), densities 0..60%, default and explicit "
+              "target_values (incl. absent values / NaN, int or float lists), NaN/inf cells, 7 dtypes, coordinate unit in {1,1/2,2,1/4}, steps "
               "{1,2,3} per axis, ascending/descending, EUCLIDEAN/MANHATTAN/unknown metric strings, max_distance in "
               "{inf, None, k, k+1/2, sqrt(k+1/2), sqrt(k+1/4)}; all three public functions per case; stream jit = "
               "numba-compiled code, stream interp = same source under NUMBA_DISABLE_JIT; small = every layout on "
